@@ -87,4 +87,17 @@ def xor (a b : St) : St := addMany init (members ⟨.array, 0, a.bits ^^^ b.bits
 def andNot (a b : St) : St := addMany init (members ⟨.array, 0, clearAll a.bits b.bits⟩)
 where clearAll (x y : Nat) : Nat := x ^^^ (x &&& y)
 
+/-- little-endian bytes (local copy to keep this file import-free) -/
+def leB : Nat → Nat → List Nat
+  | 0, _ => []
+  | k + 1, v => (v % 256) :: leB k (v / 256)
+
+/-- `varintBitmapEncode` for the containers `Add` produces: [type][cardinality u32][array: u16 members |
+    bitmap: 8192 bytes] -/
+def encode (s : St) : List Nat :=
+  match s.ty with
+  | .array => 0 :: leB 4 s.card ++ (members s).flatMap (leB 2)
+  | .bitmap => 1 :: leB 4 s.card ++ leB 8192 s.bits
+  | .runs => 2 :: leB 4 s.card ++ leB 4 1 ++ leB 2 (members s).head! ++ leB 2 s.card
+
 end Varint.Bitmap
